@@ -902,6 +902,33 @@ def cli_argv(case, li: LangInfo, outdir: str, root: str, lookup: typing.Optional
     return argv + [root]
 
 
+def check_empty_root(ctx: core.Ctx, lang: str, spelling: str, support: typing.Optional[str]) -> typing.List[tuple]:
+    sb = pathlib.Path(tempfile.mkdtemp(prefix="vf-c11e-"))
+    try:
+        root = sb / "in" / "emptyroot"
+        (root / "still" / "nothing").mkdir(parents=True)  # directories only, no definitions
+        cwd = sb / "cwd"
+        (cwd / "x").mkdir(parents=True)
+        outdir, outabs = outdir_arg(spelling, cwd, sb)
+        argv = ["--target-language", lang, "--experimental-languages", "--outdir", outdir]
+        if support:
+            argv += ["--generate-support", support]
+        argv += [str(root) if spelling.startswith("abs") else os.path.relpath(root, cwd)]
+        before = tool.snapshot(sb)
+        rc, _, err = tool.run_sub(argv, cwd=str(cwd))
+        after = tool.snapshot(sb)
+        created = snap_diff(before, after)
+        ctx.case(("empty-root", lang, spelling, support), bool(created), sample={"level": "cli", "empty root namespace": True, "argv": argv, "rc": rc, "created": created[:4]},
+                 classes=["empty-root", "empty-root.rc0" if rc == 0 else "empty-root.rejected"] + (["empty-root.creates-files"] if created else []))
+        outrel = os.path.relpath(outabs, sb)
+        outside = [k for k in created if not (k.rstrip("/") == outrel or k.startswith(outrel + "/") or outrel.startswith(k.rstrip("/") + "/"))]
+        if outside:
+            return [("run|file-outside-outdir|empty-root-namespace", f"nnvg {' '.join(argv)} (cwd={cwd}) created or changed outside --outdir {outdir!r}: {outside[:6]}")]
+        return []
+    finally:
+        shutil.rmtree(sb, ignore_errors=True)
+
+
 def check_real(ctx: core.Ctx, case, env: Env, sub: bool = False) -> typing.List[tuple]:
     li = env.lang(case["lang"], case.get("ext"), case.get("stem"))
     lang = li.name
@@ -1101,6 +1128,13 @@ def run(ctx: core.Ctx):
         for packed in pool.map(_real_worker, todo):
             _merge(ctx, packed)
         ctx.extra["real_runs"] = len(todo)
+        # the EMPTY set of composite types (a root namespace directory without definitions): whatever a run creates -- the
+        # support files -- is created below --outdir
+        for lang in LANGS:
+            for sp in SPELLINGS:
+                for support in (None, "only", "always"):
+                    for sig, what in check_empty_root(ctx, lang, sp, support):
+                        ctx.fail(sig, what, {"kind": "empty-root", "lang": lang, "outdir": sp, "support": support})
         ctx.extra["api_cases"] = slice_n * (workers + 1)
     finally:
         pool.terminate()
@@ -1125,6 +1159,7 @@ def run(ctx: core.Ctx):
     ctx.require("hashseed.sub", 4)
     ctx.require("real.sub", 4)
     ctx.require("real.root2", 4)
+    ctx.require("empty-root.creates-files", 6)
 
 
 def _pack(wctx: core.Ctx, env: typing.Optional[Env]) -> dict:
@@ -1179,6 +1214,8 @@ def replay(ctx: core.Ctx, case):
     env.hash_every = 1
     env.real_per_combo = 0
     try:
+        if case.get("kind") == "empty-root":
+            return check_empty_root(ctx, case["lang"], case["outdir"], case.get("support"))
         if case.get("real"):
             return check_real(ctx, case, env, bool(case.get("sub")))
         return check_api(ctx, case, env, hashseed=True)
